@@ -30,6 +30,7 @@ def run(ctx):
     ctx.rule("C19.4", "no await (yield) while the write guard is live")
     ctx.rule("C19.5", "one read guard per request, taken before resolve() and alive until resolve().await is Ready; zones argument derives from it")
     ctx.rule("C19.6", "load_zone_configuration: every Err arm sets the failure flag, the flag is never cleared, Some(..) only on its false edge; the loader cannot reach the lock")
+    ctx.rule("C19.7", "what a successful (re)load contains: every listed file of every configured directory (any entry that is not a directory, so an unreadable one fails the load), each zone file merged into the zone of its apex, the hosts files combined and merged last (shared with C12.5)")
     ctx.decline("relative timing of SIGUSR1 and in-flight queries beyond the lock discipline")
 
     # ---------------------------------------------------------------- C19.1
@@ -145,6 +146,8 @@ def run(ctx):
                           "the read guard can be dropped/moved before resolve() finished (%s)" % [f.loc(d) for d in early], f.loc(cb))
 
     loader_rules(ctx, "C19.6")
+    from . import C12
+    C12.composition_rules(ctx, "C19.7", ctx.prog)
 
 
 def loader_rules(ctx, rule):
